@@ -38,7 +38,7 @@ class Site:
                 # a server-side outage that is over by the time the command is run again
                 k = 'error' if run_index == 0 else 'leaf'
             if k == 'html' and p.get('markup'):
-                body = html_varied(p['links'], p['markup'], meta=p.get('meta'))
+                body = html_varied(p['links'], p['markup'], meta=p.get('meta'), hinted=bool(p.get('hinted')))
                 out[path] = Page(200, body, delay=p.get('delay'))
             elif k == 'html':
                 body = html([r for r, i in p['links'] if not i], [r for r, i in p['links'] if i], meta=p.get('meta'))
@@ -98,7 +98,7 @@ UNTYPED_INLINE_FORMS = ['<img src="%s">', '<table background="%s"></table>', '<i
                         '<object data="%s"></object>', '<bgsound src="%s">']
 
 
-def html_varied(links, salt, meta=None):
+def html_varied(links, salt, meta=None, hinted=False):
     """The page of `html`, with each reference written in one of the element forms the scraper knows: the ordinary
     links as <a>, <area>, <form action>, <link rel=next>, meta refresh; the embedded objects as <img>, <script>,
     stylesheet / icon <link>, background attributes, CSS in a style attribute, <object data>.  Which form a reference
@@ -109,7 +109,7 @@ def html_varied(links, salt, meta=None):
     parts.append('</head><body>')
     for k, (ref, inline) in enumerate(links):
         forms = INLINE_FORMS if inline else LINK_FORMS
-        if inline and not ref.split('#')[0].endswith('.png'):
+        if inline and not hinted and not ref.split('#')[0].endswith('.png'):
             # the forms that carry a link-type hint (script, stylesheet, icon, CSS url()) only for images: a document
             # stored first under such a hint is never scraped as HTML (first record wins, see notes/C01.md round 6)
             forms = UNTYPED_INLINE_FORMS
@@ -240,6 +240,8 @@ def gen_site(rng, size=None, redirects=True, inline=True, offsite=True, deep=Fal
     for p in paths:
         if s.pages[p]['kind'] == 'html' and rng.random() < 0.35:
             s.pages[p]['markup'] = rng.randint(1, 999)
+            if rng.random() < 0.2:
+                s.pages[p]['hinted'] = True       # also documents may sit in a form that carries a link-type hint
     if start_deep:
         # a page two directories down that links sideways and upwards, to in-scope pages nobody else links to
         s.pages['/d/sub/deep.html'] = {'kind': 'html', 'links': [('/d/only-from-deep.txt', False), ('../side/x.html', False), ('/top.txt', False)]
@@ -360,6 +362,9 @@ def norm(base, raw):
         return None
 
 
+NON_HTML_HINTS = ('media', 'css', 'javascript', 'file', 'directory')
+
+
 class RefCrawl:
     def __init__(self, site, opts, tries=2, max_redirects=20, start_hosts=(HOST,), run_index=0):
         self.run_index = run_index
@@ -418,9 +423,12 @@ class RefCrawl:
             return False
         return True
 
-    def visit(self, url, level, inline_level, tries):
-        """-> (requests, status, children[(url, inline)])"""
+    def visit(self, url, level, inline_level, tries, link_type=None):
+        """-> (requests, status, children[(url, inline)]).  `link_type`: the hint stored with the record (None when
+        unknown): a document stored as media / css / javascript is fetched but not read as HTML."""
         requests, status, kids = self._visit(url, level, inline_level, tries)
+        if link_type in NON_HTML_HINTS and kids:
+            kids = []
         if level == 0 and self.o.get('sitemaps') and self.accept(url, level, inline_level, tries):
             # --sitemaps: robots.txt and sitemap.xml of the origin are queued next to every start URL that the filters
             # let through, whatever becomes of the fetch (ProcessingRule.add_extra_urls runs before it)
@@ -536,6 +544,7 @@ class RefCrawl:
         of a page stored too deep / as an ordinary link are judged with that record."""
         _fetched, records = self.reach_any(start_url)
         stored = {r['url']: (r['level'], r['inline_level']) for r in rows}
+        hinted = {r['url'] for r in rows if r.get('link_type') in NON_HTML_HINTS and self.page(r['url'])['kind'] == 'html'}
         out = {}
 
         def dimension(url, rec, better):
@@ -561,6 +570,10 @@ class RefCrawl:
                     for (p_url, pl, pi), kids in self._yields.items():
                         if u not in [k for k, _ in kids]:
                             continue
+                        if p_url in hinted:
+                            # its parent is an HTML page stored under a media / css / javascript hint: never scraped
+                            why = 'type-shadowed'
+                            break
                         if p_url in out and out[p_url] != 'plain':
                             why = out[p_url]
                             break
@@ -697,7 +710,7 @@ def build_visits(events, ids, ref, batches):
         if e['op'] != 'check_out' or e['got'] is None:
             continue
         url, level, inl, tries = e['got'], e['level'], e['inline_level'], e['try_count']
-        reqs, st, kids = ref.visit(url, level, inl, tries)
+        reqs, st, kids = ref.visit(url, level, inl, tries, e.get('link_type'))
         real = batches.get(url)
         if real is not None and sorted(set(real)) == sorted(set(kids)):
             kids = real
